@@ -169,6 +169,66 @@ theorem half_pipeline_translucent (F : FloatOps) (src : Img8) (w h : Nat) (hw : 
     · rw [h3, halfCell]
       exact VaxisModel.Props.C20.transparent_default _ _
 
+/-- `fullCell` on two pixels, in terms of what `toRGB` returns for them: a space with default foreground; background
+    default when the mean alpha is below 50, else the channel-wise mean. -/
+theorem fullCell_eq (top bot : C16) :
+    fullCell top bot =
+      ⟨0x20, 0, if ((toRGB bot).a + (toRGB top).a) / 2 % 256 < 50 then 0
+                else rgbColor (((toRGB bot).r + (toRGB top).r) / 2 % 256) (((toRGB bot).g + (toRGB top).g) / 2 % 256)
+                              (((toRGB bot).b + (toRGB top).b) / 2 % 256)⟩ := by
+  have hc : fullBlockCmp = (.lt, 50) := by decide
+  simp only [fullCell, fullColor, averageColor, hc, evalCmp, List.cons_append, List.nil_append, List.map_cons,
+    List.map_nil, List.sum_cons, List.sum_nil, List.length_cons, List.length_nil, Nat.add_zero, u8, decide_eq_true_eq]
+
+/-- **The colours of every full-block cell, translucent pixels included, through the whole pipeline** (any stored
+    `*image.NRGBA`, any float step, scaled or not): a space with default foreground whose background is the default
+    colour exactly when the mean of the two alpha bytes is below 50 and otherwise the channel-wise mean of two colours
+    `T`, `B` that stand for the two source pixels `(nnIndex x, nnIndex 2y)`, `(nnIndex x, nnIndex (2y+1))` under the
+    cell (`StandsFor`: same alpha, each channel short by at most `255/a + 1` levels); in a last odd row `B = T`, the
+    upper pixel alone (F220). -/
+theorem full_pipeline_translucent (F : FloatOps) (src : Img8) (w h : Nat) (hw : 0 < src.w) (hh : 0 < src.h)
+    (hk : src.kind = .nrgba) (hb : Bytes src) (cs : List (Nat × Nat × BCell)) (hr : fullResize F src w h = .ok cs) :
+    ∃ pw ph, resizeDims F src.w src.h w h fullBlockGeom.1 fullBlockGeom.2 = .ok (pw, ph) ∧
+      ∀ e ∈ cs, e.1 < pw ∧ e.2.1 < ceilDiv ph 2 ∧
+        ∃ T B : C8,
+          StandsFor (src.pix (nnIndex e.1 src.w pw) (nnIndex (2 * e.2.1) src.h ph)) T ∧
+          (if 2 * e.2.1 + 1 < ph then StandsFor (src.pix (nnIndex e.1 src.w pw) (nnIndex (2 * e.2.1 + 1) src.h ph)) B
+           else B = T) ∧
+          e.2.2 = ⟨0x20, 0, if (B.a + T.a) / 2 % 256 < 50 then 0
+                            else rgbColor ((B.r + T.r) / 2 % 256) ((B.g + T.g) / 2 % 256) ((B.b + T.b) / 2 % 256)⟩ := by
+  unfold fullResize at hr
+  cases hi : resizeImg F src w h fullBlockGeom.1 fullBlockGeom.2 with
+  | error e => rw [hi] at hr; cases hr
+  | ok img =>
+    rw [hi] at hr
+    simp only [bind, Except.bind, pure, Except.pure] at hr
+    cases hr
+    refine ⟨img.w, img.h, (resizeImg_cases genCfg F src w h _ _ img hi).1, ?_⟩
+    intro e he
+    obtain ⟨h1, h2, h3, _⟩ := VaxisModel.Lemmas.ImageTerm.blockCellsWith_mem _ fullCell img.view e he
+    rw [view_w] at h1
+    rw [view_h] at h2
+    obtain ⟨hrow, _⟩ := VaxisModel.Lemmas.ImageTerm.blockHeight_rows img.h e.2.1 h2
+    rw [VaxisModel.Lemmas.ImageFit.blockHeight_eq] at h2
+    rw [full_block_bottom_shape] at h3
+    refine ⟨h1, h2, ?_⟩
+    by_cases hbot : 2 * e.2.1 + 1 < img.h
+    · have hl : lowerPx .topIfMissing img.view e.1 (2 * e.2.1) = img.view.at e.1 (2 * e.2.1 + 1) := by
+        have : 2 * e.2.1 + 1 < img.view.h := hbot
+        simp [lowerPx, this]
+      refine ⟨toRGB (img.view.at e.1 (2 * e.2.1)), toRGB (img.view.at e.1 (2 * e.2.1 + 1)),
+        resized_stands_for F src img w h _ _ hi hk hb hw hh e.1 (2 * e.2.1) h1 hrow, ?_, ?_⟩
+      · rw [if_pos hbot]
+        exact resized_stands_for F src img w h _ _ hi hk hb hw hh e.1 (2 * e.2.1 + 1) h1 hbot
+      · rw [h3, hl, fullCell_eq]
+    · have hl : lowerPx .topIfMissing img.view e.1 (2 * e.2.1) = img.view.at e.1 (2 * e.2.1) := by
+        have : ¬ 2 * e.2.1 + 1 < img.view.h := hbot
+        simp [lowerPx, this]
+      refine ⟨toRGB (img.view.at e.1 (2 * e.2.1)), toRGB (img.view.at e.1 (2 * e.2.1)),
+        resized_stands_for F src img w h _ _ hi hk hb hw hh e.1 (2 * e.2.1) h1 hrow, ?_, ?_⟩
+      · rw [if_neg hbot]
+      · rw [h3, hl, fullCell_eq]
+
 /-- Non-vacuity: a 2×4 translucent image squeezed into one cell. -/
 example :
     let src : Img8 := ⟨.nrgba, 2, 4, #[⟨200, 100, 50, 128⟩, ⟨1, 2, 3, 60⟩, ⟨9, 9, 9, 10⟩, ⟨0, 0, 0, 0⟩,
